@@ -15,6 +15,7 @@ import (
 
 	fp "github.com/cloudflare/circl/math/fp25519"
 	"github.com/cloudflare/circl/zz_verif/ref/mont"
+	"github.com/cloudflare/circl/zz_verif/ref/prodgen"
 	"github.com/cloudflare/circl/zz_verif/vlib"
 	"golang.org/x/sys/cpu"
 	"pgregory.net/rapid"
@@ -125,7 +126,12 @@ func c06Scalar(t *rapid.T, label string) Key {
 func c06U(t *rapid.T, label string) (Key, string) {
 	var u Key
 	cls := "uniform"
-	switch rapid.IntRange(0, 5).Draw(t, label+".kind") {
+	switch rapid.IntRange(0, 7).Draw(t, label+".kind") {
+	case 6, 7:
+		// the first ladder step squares 2u: choose the square first, then u = sqrt/2
+		x, _, _ := prodgen.Factors(t, Size/8, 38, label+".prod")
+		copy(u[:], vlib.LE(new(big.Int).Rsh(x, 1), Size))
+		cls = "product-structured"
 	case 0:
 		copy(u[:], vlib.LE(vlib.Limbs(t, Size/8, 19, label), Size))
 		cls = "limb-edge"
@@ -160,6 +166,8 @@ func TestVerifC06Backends(t *testing.T) {
 	vlib.Check(t, vlib.N(400, 4000), func(t *rapid.T) {
 		k := c06Scalar(t, "k")
 		u, cls := c06U(t, "u")
+		var garbage Key
+		vlib.FillRandom(t, garbage[:], "garbage")
 		want := c06Curve.X(k[:], u[:])
 		wantOK := !mont.IsZero(want)
 		wantPub := c06Curve.XBase(k[:])
@@ -167,6 +175,9 @@ func TestVerifC06Backends(t *testing.T) {
 		for _, be := range c06Backends() {
 			var got, pub Key
 			var ok bool
+			// the result must not depend on the previous content of the output buffers
+			copy(got[:], garbage[:])
+			copy(pub[:], garbage[:])
 			if be.native {
 				c06With(be.bmi2, func() {
 					ok = Shared(&got, &k, &u)
@@ -244,7 +255,8 @@ func TestVerifC06Primitives(t *testing.T) {
 	p := c06Curve.P
 	md := func(v *big.Int) *big.Int { return v.Mod(v, p) }
 	vlib.Check(t, vlib.N(4000, 60000), func(t *rapid.T) {
-		op := rapid.SampledFrom([]string{"ladderStep", "ladderStep", "diffAdd", "double", "mulA24"}).Draw(t, "op")
+		op := rapid.SampledFrom([]string{"ladderStep", "ladderStep", "diffAdd", "double", "mulA24", "ladderStep", "ladderStep", "double", "diffAdd"}).Draw(t, "op")
+		structured := rapid.Bool().Draw(t, "structured") && op != "mulA24"
 		b := uint(rapid.IntRange(0, 1).Draw(t, "b"))
 		var w [5]fp.Elt
 		var v [5]*big.Int
@@ -257,13 +269,51 @@ func TestVerifC06Primitives(t *testing.T) {
 				edge = true
 			}
 		}
-		if op == "diffAdd" && rapid.Bool().Draw(t, "tableMu") {
+		if structured {
+			// product-structured operands: the step multiplies A = x2+z2 by D = x3-z3 and squares A, B (or C, D),
+			// so x2, z2, x3, z3 are chosen such that A = x and D = y exactly (as integers, no wrap), where the
+			// double-width products x*y, x^2, y^2 are the chosen ones. z2, z3 are small and non-zero: with z = 0
+			// every result would have Z = 0 and projective equality would be vacuous.
+			x, y, _ := prodgen.Factors(t, Size/8, 38, "prod")
+			r1 := new(big.Int).SetUint64(uint64(rapid.Uint32().Draw(t, "r1")) | 1)
+			r2 := new(big.Int).SetUint64(uint64(rapid.Uint32().Draw(t, "r2")) | 1)
+			limit := new(big.Int).Lsh(big.NewInt(1), uint(8*Size))
+			if x.BitLen() < 40 {
+				x.SetBit(x, 8*Size-2, 1)
+			}
+			if new(big.Int).Add(y, r2).Cmp(limit) >= 0 {
+				r2.SetInt64(0)
+			}
+			set := func(i int, val *big.Int) {
+				w[i] = fp.Elt{}
+				copy(w[i][:], vlib.LE(val, Size))
+				v[i] = new(big.Int).Mod(val, p)
+			}
+			switch op {
+			case "ladderStep": // [x1, x2, z2, x3, z3]: A = x2+z2 = x, D = x3-z3 = y
+				set(1, new(big.Int).Sub(x, r1))
+				set(2, r1)
+				set(3, new(big.Int).Add(y, r2))
+				set(4, r2)
+			case "double": // x = w[1], z = w[2]: A = x
+				set(1, new(big.Int).Sub(x, r1))
+				set(2, r1)
+			case "diffAdd": // [mu, x1, z1, x2, z2]: with mu = 1, (x1+z1) + (x1-z1) = 2*x1 is squared
+				set(0, big.NewInt(1))
+				set(1, new(big.Int).Rsh(x, 1))
+				set(2, r1)
+				set(3, y)
+				set(4, x)
+			}
+			edge = true
+		}
+		if op == "diffAdd" && !structured && rapid.Bool().Draw(t, "tableMu") {
 			s := rapid.IntRange(0, len(tableGenerator)/Size-1).Draw(t, "s")
 			copy(w[0][:], tableGenerator[s*Size:(s+1)*Size])
 			v[0] = c06Int(&w[0])
 		}
 		vlib.Eval(sub)
-		in := fmt.Sprintf("op=%s b=%d w=%x", op, b, w)
+		in := fmt.Sprintf("op=%s b=%d w=[%x %x %x %x %x]", op, b, w[0][:], w[1][:], w[2][:], w[3][:], w[4][:])
 		for _, be := range c06Backends() {
 			ww := w
 			var z fp.Elt
@@ -342,9 +392,13 @@ func TestVerifC06Primitives(t *testing.T) {
 			case "mulA24":
 				good = c06Int(&z).Cmp(md(new(big.Int).Mul(c06A24, v[0]))) == 0
 			}
-			vlib.Class(sub, "op="+op+"/"+be.name)
+			if structured {
+				vlib.Class(sub, "op="+op+"/"+be.name+"/product-structured")
+			} else {
+				vlib.Class(sub, "op="+op+"/"+be.name)
+			}
 			if !good {
-				if vlib.Report(t, "C06/whitebox/x25519/"+be.name+"/"+op+"-wrong", fmt.Sprintf("%s out=%x z=%x", in, ww, z)) {
+				if vlib.Report(t, "C06/whitebox/x25519/"+be.name+"/"+op+"-wrong", fmt.Sprintf("%s out=[%x %x %x %x %x] z=%x", in, ww[0][:], ww[1][:], ww[2][:], ww[3][:], ww[4][:], z[:])) {
 					return
 				}
 			}
